@@ -1,5 +1,6 @@
 import Csverif.Model.Engine
 import Csverif.Driver.Wire
+import Csverif.Driver.EngineXfer
 /- Driver layer `engine` (differential tie of the engine decision tables; one line in, one canonical line out).
 
   `<op> <side> <L> <R> <lLeR> <ign> <prio> <oracle> <pcPrio>`
@@ -143,6 +144,7 @@ def encRes (r : Res) : String := line (encOut r.out) r.effs r.ent
 def bools (bs : List Bool) : String := String.ofList (bs.map encB)
 
 def step (toks : List String) : String :=
+  if (toks.head?.getD "").startsWith "x" then EngineXfer.step toks else
   match toks with
   | [op, sd, l, r, ord, ign, prio, orc, pc] =>
     match decSd sd, decSide l, decSide r, (ord.toList.head?).bind decB, decIgn ign, prio.toInt?, decOracle orc pc with
